@@ -22,6 +22,10 @@
 EXTENDS Integers, Sequences, FiniteSets, TLC, Json, SendTxProps
 
 CONSTANTS NP,         \* at most NP connected peers (np is chosen in Init)
+          MinNP,      \* ... and at least MinNP
+          Ordered,    \* TRUE: the peers speak one after the other (peer p only after no peer > p has
+                      \* spoken) - the bookkeeping does not depend on the order ACROSS peers, only on
+                      \* the order of one peer's messages; used for the 5-peer boundary graph
           Thrs,       \* thresholds (percent) to choose from
           Codes,      \* reject classes used
           MaxDelay,   \* how often the reject timeout may pass
@@ -64,7 +68,9 @@ EndIfAllClosed(cl, rp, r, c) ==
   IF cl = Peers THEN verdict' \in Verdicts(rp, r, c) ELSE verdict' = 0
 
 \* A peer may repeat a message of a kind once, within the budget MaxDup.
-MaySend(p, k) == sent[p][k] = 0 \/ (sent[p][k] = 1 /\ ndup < MaxDup)
+MaySend(p, k) ==
+  /\ sent[p][k] = 0 \/ (sent[p][k] = 1 /\ ndup < MaxDup)
+  /\ Ordered => \A q \in Peers : q > p => sent[q] = <<0, 0>>
 Sent(p, k) == /\ sent' = [sent EXCEPT ![p][k] = @ + 1]
               /\ ndup' = IF sent[p][k] = 1 THEN ndup + 1 ELSE ndup
 
@@ -116,7 +122,7 @@ Timeout ==                                                 \* broadcast timeout 
   /\ Finish(A("Finish", 0, "", 0))
 
 Init ==
-  /\ np \in 1..NP
+  /\ np \in MinNP..NP
   /\ thr \in Thrs
   /\ replies = {} /\ closed = {} /\ armed = {}
   /\ rej = [p \in Peers |-> 0]
